@@ -954,6 +954,100 @@ fn account_batch(a: &[&str]) -> String {
     format!("{} {} {} {} {}", kind, puts, (!asserted.is_empty()) as u8, rule_ok as u8, same)
 }
 
+/// worktop_run <op> <resource 0..2> <amount attos> {<present 0|1> <resource> <amount>}x2
+/// The worktop holds up to two buckets (nodes 80, 81); `put` brings bucket 85 of <resource>/<amount>; a bucket split off by
+/// `take` is node 90, a fresh empty bucket node 91. Runs the REAL WorktopBlueprint operation (through the verif dispatcher)
+/// over the MockApi field store. Prints
+/// `<ok|err> ret=<nodes returned,..> map=<res:node,..> put=<target:source,..> take=<source:amount,..> drop=<node,..>`.
+fn worktop_run(a: &[&str]) -> String {
+    use radix_common::prelude::*;
+    use radix_engine::blueprints::resource::*;
+    use radix_engine_interface::blueprints::resource::*;
+    use radix_engine_interface::types::IndexedScryptoValue;
+    let n = |t: &str| -> i64 { t.parse().unwrap() };
+    let other_fungible = {
+        let mut b = [3u8; NodeId::LENGTH];
+        b[0] = EntityType::GlobalFungibleResourceManager as u8;
+        ResourceAddress::new_or_panic(b)
+    };
+    let res = |r: i64| match r {
+        0 => XRD,
+        1 => other_fungible,
+        _ => ACCOUNT_OWNER_BADGE,
+    };
+    let res_no = |r: &ResourceAddress| if *r == XRD { 0 } else if *r == other_fungible { 1 } else { 2 };
+    let mk = |b: u8| {
+        let mut x = [b; NodeId::LENGTH];
+        x[0] = EntityType::InternalGenericComponent as u8;
+        NodeId(x)
+    };
+    let node_no = |x: &NodeId| x.0[1] as i64;
+    let (op, r, x) = (a[0], n(a[1]), dec(a[2]));
+    let mut api = mock_api::MockApi::default();
+    let mut worktop = WorktopSubstate::new();
+    for i in 0..2usize {
+        if n(a[3 + 3 * i]) == 1 {
+            let node = mk(80 + i as u8);
+            worktop.resources.insert(res(n(a[4 + 3 * i])), Own(node));
+            api.outer_objects.insert(node, res(n(a[4 + 3 * i])).into());
+            api.per_node.insert((node, BUCKET_GET_AMOUNT_IDENT.to_string()), scrypto_encode(&dec(a[5 + 3 * i])).unwrap());
+        }
+    }
+    api.fields.insert(0u8, scrypto_encode(&worktop).unwrap());
+    api.outer_objects.insert(mk(85), res(r).into());
+    api.per_node.insert((mk(85), BUCKET_GET_AMOUNT_IDENT.to_string()), scrypto_encode(&x).unwrap());
+    api.defaults.insert(BUCKET_PUT_IDENT.to_string(), scrypto_encode(&()).unwrap());
+    api.defaults.insert(BUCKET_TAKE_IDENT.to_string(), scrypto_encode(&Bucket(Own(mk(90)))).unwrap());
+    api.defaults.insert(RESOURCE_MANAGER_CREATE_EMPTY_BUCKET_IDENT.to_string(), scrypto_encode(&Bucket(Own(mk(91)))).unwrap());
+    api.defaults.insert(RESOURCE_MANAGER_DROP_EMPTY_BUCKET_IDENT.to_string(), scrypto_encode(&()).unwrap());
+    let input = match op {
+        "put" => IndexedScryptoValue::from_typed(&WorktopPutInput { bucket: Bucket(Own(mk(85))) }),
+        "take" => IndexedScryptoValue::from_typed(&WorktopTakeInput { amount: x, resource_address: res(r) }),
+        "take_all" => IndexedScryptoValue::from_typed(&WorktopTakeAllInput { resource_address: res(r) }),
+        "assert_contains" => IndexedScryptoValue::from_typed(&WorktopAssertContainsInput { resource_address: res(r) }),
+        "assert_contains_amount" => {
+            IndexedScryptoValue::from_typed(&WorktopAssertContainsAmountInput { resource_address: res(r), amount: x })
+        }
+        _ => IndexedScryptoValue::from_typed(&WorktopDrainInput {}),
+    };
+    let out = verif_worktop_invoke(op, &input, &mut api);
+    let after: WorktopSubstate = scrypto_decode(&api.fields[&0u8]).unwrap();
+    let ret: Vec<i64> = match &out {
+        Ok(v) => match op {
+            "take" | "take_all" => vec![node_no(&v.as_typed::<Bucket>().unwrap().0 .0)],
+            "drain" => v.as_typed::<Vec<Own>>().unwrap().iter().map(|o| node_no(&o.0)).collect(),
+            _ => vec![],
+        },
+        Err(_) => vec![],
+    };
+    let join = |v: Vec<String>| if v.is_empty() { "-".to_string() } else { v.join(",") };
+    let map: Vec<String> = after.resources.iter().map(|(k, v)| format!("{}:{}", res_no(k), node_no(&v.0))).collect();
+    let mut puts = vec![];
+    let mut takes = vec![];
+    let mut drops = vec![];
+    for (recv, method, args) in api.calls.iter() {
+        if method == BUCKET_PUT_IDENT {
+            let i: BucketPutInput = scrypto_decode(args).unwrap();
+            puts.push(format!("{}:{}", node_no(recv), node_no(&i.bucket.0 .0)));
+        } else if method == BUCKET_TAKE_IDENT {
+            let i: BucketTakeInput = scrypto_decode(args).unwrap();
+            takes.push(format!("{}:{}", node_no(recv), i.amount.attos()));
+        } else if method == RESOURCE_MANAGER_DROP_EMPTY_BUCKET_IDENT {
+            let i: ResourceManagerDropEmptyBucketInput = scrypto_decode(args).unwrap();
+            drops.push(format!("{}", node_no(&i.bucket.0 .0)));
+        }
+    }
+    format!(
+        "{} ret={} map={} put={} take={} drop={}",
+        if out.is_ok() { "ok" } else { "err" },
+        join(ret.iter().map(|x| x.to_string()).collect()),
+        join(map),
+        join(puts),
+        join(takes),
+        join(drops)
+    )
+}
+
 /// authzone_run <kind rule|amount> <rk 0 NF|1 Resource> <rr> <ri> <amount attos> <dcp_some> <dcp> <gck> <gca> <g zone|-1>
 ///              <n zones> { <parent zone|-1> <sim res> <impl res> <impl id> <n proofs> {<res> <amount> <id>}* }*
 /// Zone 0 is the actor's own auth zone. Resources: 0 XRD, 1 ACCOUNT_OWNER_BADGE, 5 PACKAGE_OF_DIRECT_CALLER, 6 GLOBAL_CALLER,
@@ -1175,6 +1269,7 @@ fn auth_run(a: &[&str]) -> String {
 fn run(a: &[&str]) -> String {
     match a[0] {
         "auth_run" => auth_run(&a[1..]),
+        "worktop_run" => worktop_run(&a[1..]),
         "account_batch" => account_batch(&a[1..]),
         "account_run" => account_run(&a[1..]),
         "intent_tree" => intent_tree::run(&a[1..]),
